@@ -47,13 +47,43 @@ theorem C15_matmul_phase (P Q : Pauli) (c d : Cx) (k : Int) (g : PStr) (hl : P.g
   have _ := hl   -- not needed: `xorS`/`ipow` truncate to the common length on both sides alike
   exact matmul_phase P Q c d k g
 
-/-- adding a plain number adds that multiple of the identity -/
+/-- adding a plain number adds that multiple of the identity (the result is a term list, or the polynomial without terms on
+    `N` qubits when everything cancels) -/
 theorem C15_add_number (a : Poly) (c : Cx) (N : Nat) (g : PStr) (hN : (PObj.poly a).N = N) :
-    ∃ r, PObj.add (.poly a) (.num c) = .ok (.poly r) ∧
+    ∃ r, PObj.add (.poly a) (.num c) = .ok (normP N r) ∧
       coef r g = keep ((coef a g).add (if g = idStr N then c else Cx.zero)) 1 10000000000 := by
   refine ⟨polyAdd a (polySmul c (polyIdentity N)), ?_, ?_⟩
   · subst hN; rfl
   · rw [C15_coef_add, coef_smul_identity]
+
+/-- **the polynomial without terms keeps its number of qubits**: adding a number to it gives that multiple of the identity on
+    `n` qubits (both operand orders) -/
+theorem C15_zero_add_number (n : Nat) (c : Cx) (g : PStr) :
+    ∃ r, PObj.add (.zero n) (.num c) = .ok (normP n r) ∧ PObj.add (.num c) (.zero n) = .ok (normP n r) ∧
+      coef r g = keep (if g = idStr n then c else Cx.zero) 1 10000000000 := by
+  refine ⟨polyAdd [] (polySmul c (polyIdentity n)), rfl, rfl, ?_⟩
+  rw [C15_coef_add, coef_smul_identity, coef_nil, Cx.zero_add]
+
+/-- products with the polynomial without terms are the polynomial without terms on the same qubits; sums with it keep the
+    other operand (up to the tolerance of `reduce`), negation and scalar multiples keep it, its trace is 0 -/
+theorem C15_zero_laws (n : Nat) (b : Poly) (c : Cx) (g : PStr) (hb : b ≠ []) :
+    PObj.matmul (.zero n) (.poly b) = .ok (.zero n) ∧ PObj.matmul (.poly b) (.zero n) = .ok (.zero (PObj.poly b).N) ∧
+    PObj.matmul (.zero n) (.zero n) = .ok (.zero n) ∧
+    (∃ r, PObj.add (.zero n) (.poly b) = .ok (normP n r) ∧ coef r g = keep (coef b g) 1 10000000000) ∧
+    PObj.neg (.zero n) = .zero n ∧ PObj.rmul c (.zero n) = .ok (.zero n) ∧ PObj.trace (.zero n) = .ok Cx.zero := by
+  have _ := hb
+  refine ⟨rfl, ?_, rfl, ⟨polyAdd [] b, rfl, ?_⟩, rfl, rfl, rfl⟩
+  · have h : polyMatmul b [] = [] := by simp [polyMatmul, batchDot]
+    show Except.ok (normP (PObj.poly b).N (polyMatmul b [])) = _
+    rw [h]; rfl
+  · rw [C15_coef_add, coef_nil, Cx.zero_add]
+
+/-- a normalised result denotes the same operator as its term list -/
+theorem C15_normP_coef (n : Nat) (r : Poly) (g : PStr) : (normP n r).asPoly.map (fun p => coef p g) = some (coef r g) := by
+  unfold normP
+  cases r with
+  | nil => rfl
+  | cons t r => rfl
 
 /-- `Pauli @ PauliMonomial` keeps the coefficient of the monomial (operand dispatch) -/
 theorem C15_matmul_pauli_mono (x y : Pauli) (c : Cx) :
